@@ -16,13 +16,14 @@ type T0 struct{ P string }
 type T1 struct{ P string }
 type T2 struct{ P string }
 type T3 struct{ P string }
+type T4 struct{ P string }
 
 // Iface is implemented by T3 only.
 type Iface interface{ Prov() string }
 
 func (t T3) Prov() string { return t.P }
 
-var carrier = []reflect.Type{reflect.TypeOf(T0{}), reflect.TypeOf(T1{}), reflect.TypeOf(T2{}), reflect.TypeOf(T3{})}
+var carrier = []reflect.Type{reflect.TypeOf(T0{}), reflect.TypeOf(T1{}), reflect.TypeOf(T2{}), reflect.TypeOf(T3{}), reflect.TypeOf(T4{})}
 var ifaceType = reflect.TypeOf((*Iface)(nil)).Elem()
 var errType = reflect.TypeOf((*error)(nil)).Elem()
 var markerType = reflect.TypeOf(am.Struct{})
@@ -103,9 +104,11 @@ type FuncSpec struct {
 	HasErr  bool    `json:"haserr,omitempty"`
 	Fails   bool    `json:"fails,omitempty"`
 	Once    bool    `json:"once,omitempty"`
-	Built   bool    `json:"built,omitempty"` // assembled with BuildFunc over NewValueSet
-	Gen     bool    `json:"gen,omitempty"`   // supplied through ConverterGen
+	Built   bool    `json:"built,omitempty"`  // assembled with BuildFunc over NewValueSet
+	Gen     bool    `json:"gen,omitempty"`    // supplied through ConverterGen
 	NilOut  bool    `json:"nilout,omitempty"` // pointer-struct result returned as nil
+	// TypedNil: a failing function returns a non-nil error interface holding a nil *myErr
+	TypedNil bool `json:"typednil,omitempty"`
 }
 
 func (f FuncSpec) sig() string {
@@ -133,6 +136,9 @@ func (f FuncSpec) String() string {
 	if f.NilOut {
 		s += "!nil"
 	}
+	if f.TypedNil {
+		s += "!typednil"
+	}
 	return s
 }
 
@@ -150,7 +156,7 @@ type Scenario struct {
 	Convs  []FuncSpec `json:"convs,omitempty"`
 	// Redefine only
 	HasFilter bool  `json:"hasfilter,omitempty"`
-	FilterIn  []int `json:"filterin,omitempty"` // permitted type indexes
+	FilterIn  []int `json:"filterin,omitempty"`  // permitted type indexes
 	FilterOut int   `json:"filterout,omitempty"` // 0 none, 1 accepts all, 2 rejects all
 	// Malformed options interleaved at position Pos of the option list
 	Malformed string `json:"malformed,omitempty"`
